@@ -109,6 +109,8 @@ static void check_stream(const struct gstream *g, void *ctx)
  * Every small token stream is therefore placed behind a stored filler so that EVERY one of its output positions in turn
  * coincides with (a) the window edge and (b) the end of the first caller buffer. */
 static uint8_t *EB, *EX, *EO;
+static const struct tok *EDGE_TOKS; static int EDGE_NTOKS; /* set: the stream's matches reach into the filler */
+static size_t EDGE_SPLIT_BACK; /* 0: all input in the first call; k > 0: the first call's input ends k bytes before the end of the token stream */
 static void edge_run(const struct gstream *g, size_t P, size_t first_out, int junk, int cpu, const char *what)
 {
 	char key[420];
@@ -125,7 +127,15 @@ static void edge_run(const struct gstream *g, size_t P, size_t first_out, int ju
 	size_t gb = (g->end_bit + 7) / 8;
 	memcpy(EB + bl, g->body, gb);
 	bl += gb;
-	memcpy(EX + P, g->x, g->xlen);
+	if (EDGE_TOKS) { /* tokens that reach back into the filler: expected output by simulation */
+		size_t q = P;
+		for (int i = 0; i < EDGE_NTOKS; i++) {
+			if (!EDGE_TOKS[i].len) { EX[q++] = (uint8_t)EDGE_TOKS[i].lit; continue; }
+			for (int j = 0; j < EDGE_TOKS[i].len; j++, q++)
+				EX[q] = EX[q - EDGE_TOKS[i].dist];
+		}
+	} else
+		memcpy(EX + P, g->x, g->xlen);
 	size_t xl = P + g->xlen;
 	memset(EB + bl, 0xA5, junk);
 	size_t inlen = bl + junk;
@@ -135,18 +145,23 @@ static void edge_run(const struct gstream *g, size_t P, size_t first_out, int ju
 	size_t cap = first_out ? first_out : xl;
 	if (V_TRY()) {
 		isal_inflate_init(st);
-		st->next_in = EB; st->avail_in = inlen;
+		size_t first_in = EDGE_SPLIT_BACK && EDGE_SPLIT_BACK < gb + 1 ? bl - EDGE_SPLIT_BACK : inlen, given = first_in;
+		st->next_in = EB; st->avail_in = first_in;
 		st->next_out = EO; st->avail_out = cap;
 		do {
 			ret = isal_inflate(st);
 			if (st->avail_out == 0 && (size_t)(st->next_out - EO) < xl + 8)
 				st->avail_out = EO + xl + 8 - st->next_out; /* the rest (+8 so that surplus output is visible) */
-		} while (ret == ISAL_DECOMP_OK && st->block_state != ISAL_BLOCK_FINISH && ++calls < 6);
+			if (st->avail_in == 0 && given < inlen) { /* second input piece */
+				st->next_in = EB + given; st->avail_in = inlen - given;
+				given = inlen;
+			}
+		} while (ret == ISAL_DECOMP_OK && st->block_state != ISAL_BLOCK_FINISH && ++calls < 8);
 		V_END();
 	} else
 		fault = 1;
 	v_eval();
-	snprintf(key, sizeof key, "window-edge %s: %s filler=%zu first-avail_out=%zu junk=%d cpu=%s", what, g->desc, P, cap, junk, cpu_level_name[cpu]);
+	snprintf(key, sizeof key, "window-edge %s: %s filler=%zu first-avail_out=%zu junk=%d cpu=%s first-input-ends=%zu-bytes-before-stream-end", what, g->desc, P, cap, junk, cpu_level_name[cpu], EDGE_SPLIT_BACK);
 	size_t got = st->next_out - EO;
 	size_t in_pos = (inlen - st->avail_in) - (st->read_in_length > 0 ? st->read_in_length / 8 : 0);
 	if (fault) {
@@ -171,7 +186,7 @@ static void edge_run(const struct gstream *g, size_t P, size_t first_out, int ju
 static void edge_stream(const struct gstream *g, void *ctx)
 {
 	(void)ctx;
-	if (nfail > 40 || v_deadline_hit() || g->xlen == 0 || g->xlen > (v_thorough ? 600 : 80))
+	if (nfail > 40 || v_deadline_hit() || g->xlen == 0 || g->xlen > (v_thorough || EDGE_TOKS ? 600 : 80))
 		return;
 	static const int cpus[] = { CPU_BASE, CPU_SSE, CPU_AVX2 };
 	static int gate;
@@ -179,13 +194,21 @@ static void edge_stream(const struct gstream *g, void *ctx)
 	for (int ji = 0; ji < 2; ji++) {
 		int junk = ji ? 5000 : 0;
 		for (int ci = 0; ci < 3; ci++) {
-			/* (a) each output position of the stream at the internal window edge (65536 bytes produced) */
-			for (size_t e = 0; e <= g->xlen + 1; e++)
-				if (65536 + 1 >= e)
-					edge_run(g, 65536 + 1 - e, 0, junk, cpus[ci], "internal-window");
-			/* (b) each output position of the stream at the end of the first (large) caller buffer, decoded in direct mode */
-			for (size_t e = 0; e <= g->xlen; e++)
-				edge_run(g, 70000, 70000 + e, junk, cpus[ci], "caller-buffer");
+			/* the first call's input holds everything, or ends at EVERY byte position inside the token stream (the rest follows) */
+			size_t gbytes = (g->end_bit + 7) / 8;
+			for (EDGE_SPLIT_BACK = 0; EDGE_SPLIT_BACK <= gbytes; EDGE_SPLIT_BACK++) {
+				if (EDGE_SPLIT_BACK && (gbytes > 24 || g->xlen > 40) && !v_thorough && !EDGE_TOKS)
+					break; /* quick: the input-split product only for the short streams */
+				/* (a) each output position of the stream at the internal window edge (65536 bytes produced) */
+				for (size_t e = 0; e <= g->xlen + 1; e++)
+					if (65536 + 1 >= e && !(EDGE_TOKS && g->xlen > 40 && e > 7 && e + 5 < g->xlen)) /* long far matches: both ends only */
+						edge_run(g, 65536 + 1 - e, 0, junk, cpus[ci], "internal-window");
+				/* (b) each output position of the stream at the end of the first (large) caller buffer, decoded in direct mode */
+				for (size_t e = 0; e <= g->xlen; e++)
+					if (!(EDGE_TOKS && g->xlen > 40 && e > 7 && e + 5 < g->xlen))
+						edge_run(g, 70000, 70000 + e, junk, cpus[ci], "caller-buffer");
+			}
+			EDGE_SPLIT_BACK = 0;
 		}
 	}
 	if (!gate) {
@@ -204,6 +227,50 @@ static void edge_stream(const struct gstream *g, void *ctx)
 	v_nontrivial(v_mix(v_hash(g->body, g->blen, 0), 0xed6e));
 }
 
+/* token streams whose match reaches back into the filler: literal(s) + match (short / long, distance codes with 0, 1 and 13 extra bits,
+ * extra bits all zero and all one) + literal, in a fixed and in a balanced dynamic block, final and non-final */
+static void edge_far_family(void)
+{
+	static const int lens[] = { 3, 4, 258 }, dists[] = { 1, 2, 5, 6, 24577, 32768 };
+	static struct gstream g;
+	static uint8_t body[256], xdummy[600];
+	uint64_t unit = 424242;
+	for (int kind = 0; kind < 2; kind++)
+		for (int nlit = 1; nlit <= 2; nlit++)
+			for (int li = 0; li < 3; li++)
+				for (int di = 0; di < 6; di++)
+					for (int fin = 0; fin < 2; fin++) {
+						if (!v_mine(unit++))
+							continue;
+						struct tok t[6];
+						int nt = 0;
+						for (int i = 0; i < nlit; i++) t[nt++] = (struct tok){ 0, 'B' + i, 0 };
+						t[nt++] = (struct tok){ lens[li], 0, dists[di] };
+						t[nt++] = (struct tok){ 0, 'Z', 0 };
+						struct bw w;
+						bw_init(&w, body, sizeof body);
+						if (kind == 0)
+							gen_fixed(&w, fin, t, nt);
+						else {
+							uint8_t L[288] = { 0 }, D[32] = { 0 };
+							int ul[8], nul = 0, ud[2], nud = 0;
+							ul[nul++] = 'B'; if (nlit == 2) ul[nul++] = 'C'; ul[nul++] = 'Z'; ul[nul++] = 256; ul[nul++] = 257 + gen_len_sym(lens[li]);
+							ud[nud++] = gen_dist_sym(dists[di]); ud[nud++] = gen_dist_sym(dists[di]) ? 0 : 1;
+							shape_balanced(ul, nul, L); shape_balanced(ud, nud, D);
+							gen_dynamic(&w, fin, L, 286, D, 30, 0, t, nt);
+						}
+						if (!fin)
+							gen_fixed(&w, 1, NULL, 0); /* empty final block */
+						g.body = body; g.blen = bw_bytes(&w); g.end_bit = w.bit;
+						g.x = xdummy; g.xlen = nlit + lens[li] + 1;
+						g.zlib_ok = 1; g.nblocks = fin ? 1 : 2;
+						snprintf(g.desc, sizeof g.desc, "far-token %s%s[%dxL M(%d,%d) LZ]", kind ? "dyn-balanced" : "fixed", fin ? "" : "(non-final)", nlit, lens[li], dists[di]);
+						EDGE_TOKS = t; EDGE_NTOKS = nt;
+						edge_stream(&g, NULL);
+						EDGE_TOKS = NULL;
+					}
+}
+
 int main(int argc, char **argv)
 {
 	v_init(argc, argv, "C02");
@@ -215,6 +282,7 @@ int main(int argc, char **argv)
 		EB = malloc(90000 + GS_MAXBODY); EX = malloc(90000 + GS_MAXOUT); EO = malloc(90000 + GS_MAXOUT);
 		gs_family_tokens(2, 1, mine, &idx, edge_stream, NULL);
 		gs_family_shapes(mine, &idx, edge_stream, NULL);
+		edge_far_family();
 		if (v_shard == 0) {
 			v_sample("window-edge internal-window: F1 dyn-balanced[La] behind a stored filler of 65536 bytes, junk=5000, cpu=avx2: the literal and the end-of-block code share one lookup entry and the internal window is full exactly in front of it");
 			v_note("edge part: every output position of every small token stream is made to coincide with the 65536-byte internal window edge (filler length sweep) and with the end of a 70000+e byte first caller buffer (direct-mode decode)");
